@@ -296,6 +296,14 @@ func TestC12(t *testing.T) {
 			t.Fatal(err)
 		}
 		run.Case(true, 1)
+		if len(c.Ops) == 1 && c.Ops[0].Kind == "load-store-race" {
+			run.Case(true, 2)
+			if err := loadStoreRace(run.Seed, 40); err != nil {
+				run.Violation(c, err.Error())
+				t.Fatalf("replay fails: %v", err)
+			}
+			return
+		}
 		if len(c.Ops) == 1 && c.Ops[0].Kind == "concurrent-stores" {
 			run.Case(true, 2)
 			if err := concurrentStores(run.Seed, 6000); err != nil {
@@ -323,6 +331,18 @@ func TestC12(t *testing.T) {
 	if t.Failed() {
 		return
 	}
+	t.Run("load-store-race", func(t *testing.T) {
+		if err := loadStoreRace(run.Seed+uint64(run.Shard)*131, run.Pick(4, 40)); err != nil {
+			if strings.HasPrefix(err.Error(), "INFRA:") {
+				t.Skipf("%v", err)
+			}
+			p := run.ViolationNamed("load-store-race", Case{Ops: []Op{{Kind: "load-store-race"}}}, err.Error())
+			t.Fatalf("violation (replay %s): %v", p, err)
+		}
+	})
+	if t.Failed() {
+		return
+	}
 	t.Run("concurrent-stores", func(t *testing.T) {
 		// several clients of one process (one per data centre) save their sessions at the same time, each to its own
 		// file through its own loader: what each reads back - through a fresh loader - is what it stored
@@ -331,6 +351,55 @@ func TestC12(t *testing.T) {
 			t.Fatalf("violation (replay %s): %v", p, err)
 		}
 	})
+}
+
+// loadStoreRace: a long-lived loader is in the middle of Load (a big session, so that reading and parsing take a
+// while) when another loader of the same path stores a newer session. Once everything is quiet the long-lived loader
+// returns the last stored session - not the one it happened to be parsing.
+func loadStoreRace(seed uint64, rounds int) error {
+	root, err := os.MkdirTemp("", "verif-c12r-")
+	if err != nil {
+		return nil
+	}
+	defer os.RemoveAll(root)
+	p := filepath.Join(root, "session.json")
+	a, b := session.NewFromFile(p), session.NewFromFile(p)
+	big := func(sd uint64) *Sess {
+		return &Sess{Key: hx.Det(sd, 6<<20), Hash: hx.Det(sd+1, 8), Salt: int64(hx.DetU64(sd + 2)), Host: fmt.Sprintf("big-%d:443", sd%1000)}
+	}
+	small := func(sd uint64) *Sess {
+		return &Sess{Key: hx.Det(sd, 256), Hash: hx.Det(sd+1, 8), Salt: int64(hx.DetU64(sd + 2)), Host: fmt.Sprintf("small-%d:443", sd%1000)}
+	}
+	for r := 0; r < rounds; r++ {
+		sd := seed*7919 + uint64(r)*31
+		if err := b.Store(toSession(big(sd))); err != nil {
+			return fmt.Errorf("INFRA: %v", err)
+		}
+		loading := make(chan struct{})
+		done := make(chan struct{})
+		go func() {
+			close(loading)
+			a.Load() // slow: megabytes to read and parse; whatever it returns now is not judged
+			close(done)
+		}()
+		<-loading
+		time.Sleep(time.Duration(5+hx.DetU64(sd+5)%40) * time.Millisecond)
+		last := small(sd + 9)
+		if err := b.Store(toSession(last)); err != nil {
+			return fmt.Errorf("INFRA: %v", err)
+		}
+		<-done
+		time.Sleep(6 * time.Millisecond)
+		got, err := a.Load()
+		if err != nil {
+			return fmt.Errorf("round %d: the long-lived loader cannot load after another loader stored: %v", r, err)
+		}
+		if err := same(got, last); err != nil {
+			return fmt.Errorf("round %d: another loader stored a session while this one was loading the previous one; afterwards this loader still returns the old one: %v", r, err)
+		}
+	}
+	run.Case(true, evid.Hash("load-store-race", seed), "load-store-race")
+	return nil
 }
 
 func concurrentStores(seed uint64, rounds int) error {
